@@ -405,7 +405,9 @@ nodesLoop:
 			outOfPlace := true
 			if len(tc.ancestors) > 0 {
 				parent := tc.ancestors[len(tc.ancestors)-1]
-				if cas, ok := parent.(*ast.Case); ok {
+				// The fallthrough statement must be a statement of the case
+				// body, not of a block nested in it.
+				if cas, ok := parent.(*ast.Case); ok && slices.Contains(cas.Body, ast.Node(node)) {
 					nn := len(nodes)
 				CASE:
 					switch i {
